@@ -40,7 +40,7 @@ ASSUMPTIONS = ['SCOPE: the object keeps its series and its own bookkeeping in on
                '(add_variable without dtype never receives None)',
                'span = a Python list / tuple / range of ints (looked up with .index)']
 EXHAUSTIVE = {'quick': False, 'thorough': False}
-CASE_TIMEOUT = 30
+CASE_TIMEOUT = 60            # wall clock per case, first import of numpy / pandas / fsic included: ample also on a loaded machine
 
 SUB = ('sub', 'sub2')            # sub-array dtypes '2f8' / (float, 2): astype() adds a dimension (Container.v RSub)
 VARS = ['X', 'Y', 'Z', 'W', 'x']
